@@ -55,7 +55,7 @@ def register(reg):
 
   # ---------------------------------------------------------------- the caches grow in lockstep with the lists they render
   def adder(method, param, lst, cached, kind, how):
-    c = reg.contract(TR, 'TestRecord.' + method, props=['C10'])
+    c = reg.contract(TR, 'TestRecord.' + method, props=['C10'], callsite=False)       # callers keep inlining these two-line helpers
     c.param(param, kind)
     c.requires('cache_in_step', 'len(self.%s) == len(self.%s)' % (lst, cached))
     c.ensures('record_appended', 'len(self.{l}) == old(len(self.{l})) + 1 and self.{l}[len(self.{l}) - 1] is {p}'.format(l=lst, p=param))
